@@ -47,6 +47,7 @@ PLAN = {
 }
 WALL_CAP = {"quick": 900, "thorough": 3300}
 FORK_EACH = False
+FUZZ_TARGETS = ["fuzz_forth"]
 MODEL_BUDGET = 3000
 FLAVOUR = [os.environ.get("VERIF_FLAVOUR", "plain")]
 _F = [None]
@@ -589,6 +590,21 @@ def known_structure_word_in_comment(case, vio):
     return any(t in MF.STRUCTURE_IN_COMMENT for body in MF.comments_of(case["source"]) for t in body)
 
 
+def known_structure_word_in_string(case, vio):
+    """the same search for the closing word also runs over the text of string literals: a structure word inside ." ..." or s" ..." is
+    taken for program structure (found by the thorough tier: '0 if pause ." <newline> begin hello" then' is rejected)"""
+    if not vio.get("bucket", "").startswith(("compile:", "model:")):
+        return False
+    try:
+        toks = MF.tokenize(case["source"])
+    except (MF.CompileError, MF.Unspecified):
+        return False
+    for i, t in enumerate(toks[:-1]):
+        if t in (".\"", "s\"") and any(w in MF.STRUCTURE_IN_COMMENT for w in toks[i + 1].replace('"', " ").split()):
+            return True
+    return False
+
+
 def known_ub_arithmetic(case, vio):
     """wraparound arithmetic is implemented with signed overflow / out-of-range shifts / out-of-range float conversions, which are
     undefined in C++: UBSan ends the process (such programs are not executed in the sanitizer flavour unless forced by a replay)"""
@@ -614,6 +630,7 @@ KNOWN = {
     "forth_string_index_after_decompile": known_string_index_after_decompile,
     "forth_ub_arithmetic": known_ub_arithmetic,
     "forth_structure_word_in_comment": known_structure_word_in_comment,
+    "forth_structure_word_in_string": known_structure_word_in_string,
     "forth_pause_at_steploop_body_end": known_pause_at_steploop_body_end,
     "forth_call_at_do_body_end": known_call_at_do_body_end,
 }
